@@ -249,3 +249,16 @@ def unit_config_wiring(tier, seed):
 
 unit_config_wiring.props = ['C05']
 CLOSED.append(unit_config_wiring)
+
+# ---- C01: the text of a merged currency entity is the slice of the compound text it spans, also at offset 0
+CONTRACTS += [
+    Contract('c01.currency.resolve_text', UP + 'BaseCurrencyParser.__resolve_text', ['C01', 'C05'], unroll=4,
+             params=dict(bias=Int(0), source=Str(),
+                         p0=Rec(RT + 'parser.py::ParseResult', dict(start=Int(0), length=Int(1), text=Str(), type=Str(), data=Const(None),
+                                                                   meta_data=Const(None), value=Const(None), resolution_str=Const(None))),
+                         self=Rec(UP + 'BaseCurrencyParser', {}), prs=Expr('[p0]')),
+             requires=['bias <= p0.start', 'p0.start - bias + p0.length <= len(source)'],
+             ensures=[('the-text-is-the-slice-it-spans',
+                       'p0.text == source[p0.start - bias:p0.start - bias + p0.length]')],
+             note='every start, 0 included (bias is the start of the compound candidate)'),
+]
